@@ -113,8 +113,17 @@ def gen_a(seed):
         for _ in range(rng.randint(1, 2)):
             n = pick("at")
             t = T()
-            decl += [f"type :: {n}", f"!! doc {t}", "integer :: comp = 0", "end type " + n]
-            reg("type", n, perm(), t)
+            if rng.random() < 0.5:
+                # a type-bound procedure spelt with capitals (an extending type of B may override it in lower case)
+                bn = f"Describe{len(used_names)}"
+                decl += [f"type :: {n}", f"!! doc {t}", "integer :: comp = 0", "contains", f"procedure :: {bn} => {n}_dimpl{mi}", "!! binding doc", "end type " + n]
+                contains += [f"subroutine {n}_dimpl{mi}(self)", f"class({n}), intent(in) :: self", f"end subroutine {n}_dimpl{mi}"]
+                privs.append(f"{n}_dimpl{mi}")
+                te = reg("type", n, perm(), t)
+                te.binding = bn
+            else:
+                decl += [f"type :: {n}", f"!! doc {t}", "integer :: comp = 0", "end type " + n]
+                reg("type", n, perm(), t)
         # procedures
         for _ in range(rng.randint(1, 3)):
             n = pick("ap")
@@ -240,6 +249,7 @@ def gen_b(seed, A):
     usable_mods = [m for m in A["modules"] if m is not local_clash_mod and by_mod.get(m.name)]
     nb = rng.randint(1, 3)
     mod_info = []
+    overrides = []
     for bi in range(nb):
         bname = f"bm{sx}_{bi}"
         bt = T()
@@ -252,7 +262,19 @@ def gen_b(seed, A):
         mods = rng.sample(usable_mods, min(len(usable_mods), rng.randint(1, 2))) if usable_mods else []
         for m in mods:
             pub = by_mod[m.name]
-            style = rng.choice(["all", "only", "only_rename"])
+            style = rng.choice(["all", "only", "only_rename", "rename"])
+            if style == "rename":
+                # rename list without ONLY: everything public comes in, the renamed entities only under their local names
+                if any(e.name.lower() in visible for e in pub):
+                    style = "only"
+                else:
+                    ren = [e for e in rng.sample(pub, min(len(pub), 2)) if e.kind in ("subroutine", "function", "type")]
+                    for e in pub:
+                        if e in ren:
+                            visible[f"ren_{e.name}_{bi}".lower()] = e
+                        else:
+                            visible[e.name.lower()] = e
+                    uses.append(f"use {m.name}" + "".join(f", ren_{e.name}_{bi} => {e.name}" for e in ren))
             if style == "all":
                 # a name exported by two used modules would be ambiguous: use only-lists then
                 if any(e.name.lower() in visible for e in pub):
@@ -261,7 +283,7 @@ def gen_b(seed, A):
                     uses.append(f"use {m.name}")
                     for e in pub:
                         visible[e.name.lower()] = e
-            if style != "all":
+            if style not in ("all", "rename"):
                 pick = [e for e in rng.sample(pub, min(len(pub), rng.randint(1, 3))) if e.name.lower() not in visible]
                 items = []
                 for e in pick:
@@ -284,8 +306,10 @@ def gen_b(seed, A):
         # B's own entity with the name of an A entity that this module does NOT import
         own = {}
         cand = [e for e in a_pub if e.name.lower() not in visible and e.kind in ("subroutine", "type")]
-        if cand and rng.random() < 0.6:
-            e = rng.choice(cand)
+        # (an entity that this module imports under another name is the typical clash: the original name is free for B's own entity)
+        away = [e for e in cand if any(v is e for v in visible.values())]
+        if cand and rng.random() < (0.9 if away else 0.6):
+            e = rng.choice(away or cand)
             t = T()
             if e.kind == "subroutine":
                 contains += [f"subroutine {e.name}(q)", f"!! doc {t}", "real :: q", f"end subroutine {e.name}"]
@@ -295,13 +319,26 @@ def gen_b(seed, A):
             ents.append(oe)
             own[e.name.lower()] = oe
             clashes.append(e)
+            if e.kind == "type":
+                # the module's own type used in the module: its own page, whatever was imported (and renamed away) from A
+                t2 = T()
+                decl += [f"type :: bown_{bi}", f"!! doc {t2}", f"type({e.name}) :: held_own", f"end type bown_{bi}"]
+                ents.append(Ent("B", bname, "type", f"bown_{bi}", "public", t2))
+                refs.append({"src": t2, "via": "component_of_own_type_named_like_external", "text": e.name, "target": oe})
         for loc, e in sorted(visible.items()):
             r = rng.random()
             if e.kind == "type":
                 if r < 0.5:
                     t = T()
                     tn = f"bt_{bi}_{len(decl)}"
-                    decl += [f"type, extends({loc}) :: {tn}", f"!! doc {t}", "integer :: extra", f"end type {tn}"]
+                    ov = getattr(getattr(e, "alias_of", e), "binding", None)
+                    if ov and rng.random() < 0.7:
+                        # the extending type overrides the inherited binding (spelt in lower case)
+                        decl += [f"type, extends({loc}) :: {tn}", f"!! doc {t}", "integer :: extra", "contains", f"procedure :: {ov.lower()} => {tn}_ov", "!! own binding doc", f"end type {tn}"]
+                        contains += [f"subroutine {tn}_ov(self)", f"class({tn}), intent(in) :: self", f"end subroutine {tn}_ov"]
+                        overrides.append((e, ov.lower(), tn))
+                    else:
+                        decl += [f"type, extends({loc}) :: {tn}", f"!! doc {t}", "integer :: extra", f"end type {tn}"]
                     ents.append(Ent("B", bname, "type", tn, "public", t))
                     refs.append({"src": t, "via": "extends", "text": e.name, "target": e})
                 else:
@@ -322,8 +359,13 @@ def gen_b(seed, A):
                 refs.append({"src": t, "via": "call", "text": e.name, "target": e, "needs_graph": True})
             # documentation references (not through a module of A that merely re-exports the entity: `[[module:item]]` names what the module contains)
             if rng.random() < 0.7 and not hasattr(e, "alias_of"):
-                form = rng.choice(["plain", "module_qualified"])
-                if form == "plain" and loc == e.name.lower():
+                form = rng.choice(["plain", "module_qualified", "ext_class"])
+                extq = {"type": ["exttype"], "subroutine": ["extprocedure", "extproc", "extsubroutine"], "function": ["extprocedure", "extproc", "extfunction"],
+                        "interface": ["extprocedure", "extproc"]}.get(e.kind)
+                if form == "ext_class" and extq and e.name.lower() not in own:
+                    # the entity classes FORD gives to what it loads from an external project
+                    doc_refs.append((f"[[{e.name}({rng.choice(extq)})]]", e))
+                elif form == "plain" and loc == e.name.lower():
                     doc_refs.append((f"[[{e.name}]]", e))
                 elif e.kind != "absinterface":
                     doc_refs.append((f"[[{e.module}:{e.name}]]", e))
@@ -340,7 +382,8 @@ def gen_b(seed, A):
             doc_refs.append((f"[[{mods[0].name}]]", mods[0]))
         doc = f"!! doc {bt} " + " ".join(d for d, _ in doc_refs)
         for d, e in doc_refs:
-            refs.append({"src": bt, "via": "doc_link_to_own_entity" if e.proj == "B" else "doc_link", "text": e.name, "target": e, "form": "qualified" if ":" in d else "plain"})
+            refs.append({"src": bt, "via": "doc_link_to_own_entity" if e.proj == "B" else "doc_link", "text": e.name, "target": e,
+                         "form": "qualified" if ":" in d else ("plain" if "(" not in d else "plain_ext_class")})
         L += [doc] + uses + ["implicit none"] + decl + (["contains"] + contains if contains else []) + [f"end module {bname}"]
         files[f"b{bi}.f90"] = "\n".join(L) + "\n"
         mod_info.append((bi, bt, set(visible), own))
@@ -358,7 +401,7 @@ def gen_b(seed, A):
                 if own_count[n] == 1 and n not in vis2 and n not in own2:
                     files[f"b{bj}.f90"] = files[f"b{bj}.f90"].replace(f"!! doc {bt2}", f"!! doc {bt2} [[{oe.name}]]", 1)
                     refs.append({"src": bt2, "via": "doc_link_to_own_entity_of_another_module", "text": oe.name, "target": oe, "form": "plain_elsewhere"})
-    return {"files": files, "refs": refs, "clashes": clashes, "ents": ents}
+    return {"files": files, "refs": refs, "clashes": clashes, "ents": ents, "overrides": overrides}
 
 
 # ---------------------------------------------------------------------------------------------
@@ -610,7 +653,7 @@ def case(arg):
             tgt = r["target"]
             t_pages_all = a_pages if tgt.proj == "A" else b_pages
             tp = pages_of(t_pages_all, tgt)
-            if r["via"] == "doc_link" and r.get("form") == "plain":
+            if r["via"] == "doc_link" and r.get("form") in ("plain", "plain_ext_class"):
                 # a bare [[name]] is looked up project-wide: any page documenting a public entity of that name is "that entity"
                 also = []
                 for e2 in A["ents"]:
@@ -624,7 +667,7 @@ def case(arg):
                 continue
             src_pages = [p for p, info in b_pages.items() if re.search(r"\b%s\b" % re.escape(r["src"]), info["text"])]
             found = False
-            if not (r["via"] == "doc_link" and r.get("form") == "plain"):
+            if not (r["via"] == "doc_link" and r.get("form") in ("plain", "plain_ext_class")):
                 also = []
             wrong = []
             for p in src_pages:
@@ -641,6 +684,30 @@ def case(arg):
                                     "links_elsewhere": bool(wrong), "form": r.get("form", "")},
                              "w": {**w0, "reference": {"from": r["src"], "text": r["text"], "target": repr(tgt), "target_tracer": tgt.tracer}, "expected_pages": tp,
                                    "pages_of_source": src_pages[:6], "links_with_that_text": wrong[:6], "b_files": B["files"], "a_files": A["files"]}})
+        # ---- a component declared with the module's own type: on the page of the declaring type the type name leads to B's page
+        for r in B["refs"]:
+            if r["via"] != "component_of_own_type_named_like_external":
+                continue
+            holder = [e2 for e2 in B["ents"] if e2.tracer == r["src"]][0]
+            page = os.path.join("type", holder.name.lower() + ".html")
+            for text, url in b_pages.get(page, {"links": []})["links"]:
+                if text.strip().lower() != r["text"].lower():
+                    continue
+                where, rel, frag = resolve(url, page, b_out, a_out, remote_prefix)
+                if where != "B":
+                    viol.append({"kf": {"kind": "own_type_named_like_external_links_to_external", "where": where}, "w": {**w0, "page": page, "url": url, "type": r["text"], "b_files": B["files"]}})
+                    break
+        # ---- a binding that B's extending type overrides is B's own: the external one is not listed as inherited
+        for e, bn, tn in B.get("overrides", []):
+            tp = pages_of(a_pages, getattr(e, "alias_of", e))
+            for page, info in b_pages.items():
+                if page != os.path.join("type", tn.lower() + ".html"):
+                    continue  # (other types of B that extend the same type without overriding do inherit it)
+                for text, url in info["links"]:
+                    where, rel, frag = resolve(url, page, b_out, a_out, remote_prefix)
+                    if where == "A" and rel in tp and frag.lower() == f"boundprocedure-{bn}":
+                        viol.append({"kf": {"kind": "overridden_external_binding_listed_as_inherited"}, "w": {**w0, "page": page, "url": url, "binding": bn, "b_files": B["files"]}})
+                        break
         # ---- precedence: pages of A entities whose names B defines are never linked
         for e in B["clashes"]:
             if not e.tracer or hasattr(e, "alias_of"):
